@@ -186,6 +186,7 @@ class PlotModel:
         self.null = NULL
         self.frames_per_record = 1
         self.spacing = 0.5
+        self.dropped_columns = []
 
 
 # ------------------------------------------------------------------------------------------------ curve shapes
@@ -328,7 +329,28 @@ def lis_plot_file(rng, spec):
     rows_pres = []
     chan_shape = {}
     chan_edges = {}
+    # PRES tables in the field lack some columns; the reader documents fall-backs for OUTP (the curve name names the channel),
+    # FILT (0.5) and MODE (WRAP): a quarter of the files drop a non-empty subset of them from every row
+    drop = set()
+    if spec['curves'] and rng.random() < 0.25:
+        drop = set(rng.sample([b'OUTP', b'FILT', b'MODE'], rng.randrange(1, 4)))
+        if b'OUTP' in drop and len({c['outp'] for c in spec['curves']}) != len(spec['curves']):
+            if rng.random() < 0.6:
+                # one curve per channel, so that the curve name can name the channel
+                seen, kept = set(), []
+                for c in spec['curves']:
+                    if c['outp'] not in seen:
+                        seen.add(c['outp'])
+                        kept.append(c)
+                spec['curves'] = kept
+            else:
+                drop.discard(b'OUTP')
+    m.dropped_columns = sorted(d.decode() for d in drop)
     for c in spec['curves']:
+        if b'OUTP' in drop:
+            c['mnem'] = c['outp']
+        if b'MODE' in drop:
+            c['mode'] = b'WRAP'
         if c['trac'] is None:
             # a track name valid in every destination film
             common = set(layouts[0])
@@ -347,6 +369,7 @@ def lis_plot_file(rng, spec):
         rows_pres.append([(b'MNEM', c['mnem']), (b'OUTP', c['outp']), (b'STAT', rng.choice([b'ALLO', b'ALLO', b'DISA'])), (b'TRAC', _fix(c['trac'], 4)),
                           (b'CODI', rng.choice([b'LLIN', b'LDAS', b'LSPO', b'HLIN', b'LGAP', b'????'])), (b'DEST', c['dest']), (b'MODE', c['mode']),
                           (b'FILT', 0.5), (b'LEDG', c['ledg']), (b'REDG', c['redg'])])
+        rows_pres[-1] = [cell for cell in rows_pres[-1] if cell[0] not in drop]
     for nm in spec['channels']:
         lo, hi, log = chan_edges.get(nm, (0.0, 1.0, False))
         if nm == b'REF ':
